@@ -19,12 +19,16 @@ META = {
                   "adjust_idx decode the four member groups in file order with the declared sizes and turn the index *differences* "
                   "into indices by prefix sums (group sizes 0..2 each, all diffs/flags/code offsets symbolic); the DEX lookup helpers "
                   "(get_class, get_encoded_method_descriptor, get_encoded_field_descriptor, get_encoded_methods_class, "
-                  "get_encoded_fields_class) return exactly the matching items on a stub class list. Bounded: every shipped DEX file "
+                  "get_encoded_fields_class) return exactly the matching items on a stub class list. Bounded (model-based): seeded random class models (0..5 classes, non-ASCII / $ identifiers, primitive / array / class types, "
+                  "wide parameters, equal field names of different type, overloads, abstract / native methods without code, "
+                  "interfaces, source files) are serialised by an independent DEX writer, parsed (two files per process) and every "
+                  "reported class / field / method / lookup compared with the model. Bounded: every shipped DEX file "
                   "(and seeded variants whose class_data index-diff encodings are re-written in non-canonical multi-byte ULEB128) is "
                   "parsed and the object model compared with an independent minimal DEX reader (specs/dexreader.py).",
     "trusted": ["LEB128 readers (C03)", "independent reader specs/dexreader.py", "MapItem/id-table glue is only covered by the bounded runs"],
-    "explanation": "member-list decoding and lookups proved on symbolic input; whole-file object model bounded (shipped files vs "
-                   "independent reader). No DEX generator was built: the variety of inputs is that of the shipped files.",
+    "explanation": "member-list decoding and lookups proved on symbolic input; whole-file object model bounded: random class "
+                   "models through the independent DEX writer (specs/dexwriter.py) compared with the model itself, and shipped files "
+                   "vs the independent reader.",
     "assumptions": ["(class, name, descriptor) triples are unique in a DEX file (DEX rule) for the lookup helpers"],
 }
 
@@ -151,7 +155,7 @@ def _model(d):
                                                      bytes(code.get_bc().get_insn()))))
             return r
         out.append({"name": c.get_name(), "access": c.get_access_flags(), "super": c.get_superclassname(),
-                    "interfaces": list(c.get_interfaces()), "source": c.get_source_file_name() if hasattr(c, "get_source_file_name") else None,
+                    "interfaces": list(c.get_interfaces()), "source": (None if c.get_source_file_idx() == 0xFFFFFFFF else d.get_cm_string(c.get_source_file_idx())),
                     "sfields": fl(cd.get_static_fields()) if cd else [], "ifields": fl(cd.get_instance_fields()) if cd else [],
                     "dmethods": ml(cd.get_direct_methods()) if cd else [], "vmethods": ml(cd.get_virtual_methods()) if cd else []})
     return out
@@ -381,3 +385,134 @@ def member_group_unbounded(U, n1):
     U.ensures("the list has exactly `size` elements and the stream stands behind the group", And(lst.n == size, buff.pos == world.P(size)))
     U.ensures("element j carries the sum of the index differences up to and including its own, and its own access flags",
               Implies(And(0 <= j, j < size), And(lst.obs("idx", j) == world.IDX(j + 1), lst.obs("flags", j) == world.FL(j))))
+
+
+# ------------------------------------------------------------------------------------------------
+# Bounded (model-based): random class models -> independent DEX writer (specs/dexwriter.py) -> real parser -> object model compared
+# with the model itself (the quantifier of the property: 0..N classes, random identifiers, primitive / array / class types, wide
+# parameters, index-diff encoded member lists, abstract / native methods without code)
+from specs import dexwriter as DWR  # noqa: E402
+
+_IDENT = ["a", "b", "Foo", "Bar", "x1", "$inner", "été", "日本", "zz_9", "I", "J", "V", "main", "this$0", "<init>", "<clinit>", "access$000"]
+_PRIM = ["I", "J", "Z", "B", "S", "C", "F", "D"]
+
+
+def _rand_dex_model(rng):
+    ncls = rng.choice([0, 1, 1, 2, 3, 5])
+    names = []
+    while len(names) < ncls:
+        n = "L" + "/".join(rng.choice(["p", "q", "com", "α", "a1"]) for _ in range(rng.randint(0, 2)))
+        n = (n + "/" if len(n) > 1 else n) + rng.choice(["A", "B", "C", "Cls", "A$1", "Ü", "I", "Z9"]) + str(rng.randint(0, 3)) + ";"
+        if n not in names:
+            names.append(n)
+    ext = ["Ljava/lang/Object;", "Ljava/lang/Runnable;", "Ljava/io/Serializable;", "Lext/Base;"]
+
+    def rtype(void=False):
+        r = rng.random()
+        if void and r < 0.3:
+            return "V"
+        if r < 0.5:
+            return rng.choice(_PRIM)
+        if r < 0.7:
+            return "[" * rng.randint(1, 3) + rng.choice(_PRIM + ["Ljava/lang/String;"] + names[:1])
+        return rng.choice(["Ljava/lang/String;", "Ljava/lang/Object;"] + names)
+    classes = []
+    for n in names:
+        c = {"name": n, "access": rng.choice([0x1, 0x0, 0x11, 0x401, 0x601, 0x4011, 0x1001]),
+             "super": rng.choice(["Ljava/lang/Object;", "Ljava/lang/Object;", "Lext/Base;"] + [x for x in names if x != n]),
+             "interfaces": rng.sample(ext[1:3] + [x for x in names if x != n], rng.choice([0, 0, 1, 2])) if True else [],
+             "source": rng.choice([None, "A.java", "é.kt", "x"]), "sfields": [], "ifields": [], "dmethods": [], "vmethods": []}
+        c["interfaces"] = c["interfaces"][:2]
+        seen_f, seen_m = set(), set()
+        for key, flagsets in (("sfields", [0x8, 0x9, 0x19, 0x1A, 0x4018]), ("ifields", [0x0, 0x1, 0x2, 0x12, 0x84, 0x1010])):
+            for _ in range(rng.choice([0, 0, 1, 2, 4, 7])):
+                f = (rng.choice(_IDENT[:13] + ["this$0"]), rtype())
+                if f in seen_f:
+                    continue
+                seen_f.add(f)
+                c[key].append((f[0], f[1], rng.choice(flagsets)))
+        for key, flagsets in (("dmethods", [0x8, 0x9, 0xA, 0x2, 0x10008, 0x10001, 0x109]), ("vmethods", [0x1, 0x4, 0x11, 0x401, 0x101, 0x1041, 0x21])):
+            for _ in range(rng.choice([0, 0, 1, 2, 3, 6])):
+                nm = rng.choice(_IDENT)
+                ret = rtype(void=True)
+                params = [rtype() for _ in range(rng.choice([0, 0, 1, 2, 4]))]
+                if (nm, ret, tuple(params)) in seen_m:
+                    continue
+                seen_m.add((nm, ret, tuple(params)))
+                acc = rng.choice(flagsets)
+                code = None
+                if not acc & 0x500:        # abstract / native methods have no code
+                    ins = sum(2 if p in ("J", "D") else 1 for p in params) + (0 if acc & 0x8 else 1)
+                    regs = ins + rng.randint(0, 3)
+                    body = rng.choice([b"\x0e\x00", b"\x00\x00\x0e\x00", b"\x12\x00\x0e\x00", b"\x00\x00\x00\x00\x00\x00\x0e\x00"])
+                    code = dict(registers=regs, ins=ins, outs=rng.randint(0, 2), insns=body)
+                c[key].append((nm, ret, params, acc, code))
+        classes.append(c)
+    return classes
+
+
+def _expected(classes):
+    out = []
+    for c in classes:
+        desc = lambda m: "(" + " ".join(m[2]) + ")" + m[1]
+        e = {"name": c["name"], "access": c["access"], "super": c["super"], "interfaces": list(c["interfaces"]), "source": c["source"]}
+        for key in ("sfields", "ifields"):
+            e[key] = sorted((c["name"], f[0], f[1], f[2]) for f in c[key])
+        for key in ("dmethods", "vmethods"):
+            e[key] = sorted(((c["name"], m[0], desc(m), m[3], None if m[4] is None else
+                              (m[4]["registers"], m[4]["ins"], m[4]["outs"], m[4]["insns"])) for m in c[key]), key=repr)
+        out.append(e)
+    return out
+
+
+@unit("C05", covers=[(DEX, "DEX._load"), (DEX, "ClassDefItem.reload"), (DEX, "ClassManager.get_type"), (DEX, "ClassManager.get_proto"),
+                     (DEX, "ClassManager.get_field"), (DEX, "ClassManager.get_method"), (DEX, "ClassDataItem._load_elements"),
+                     (DEX, "DEX.get_class"), (DEX, "DEX.get_encoded_method_descriptor"), (DEX, "DEX.get_encoded_field_descriptor"),
+                     (DEX, "DEX.get_encoded_methods_class"), (DEX, "DEX.get_encoded_fields_class"), (DEX, "EncodedMethod.__init__"),
+                     (DEX, "ProtoIdItem.get_parameters_off_value"), (DEX, "TypeList.__init__")],
+      level="bounded", samples=150,
+      note="seeded random class models (0..5 classes, identifiers incl. non-ASCII / $ / <init>, primitive, array and class types, wide "
+           "parameters, fields of equal name and different type, overloaded methods, abstract / native methods without code, interfaces, "
+           "optional source file) serialised by the independent DEX writer; two files per sample are parsed in one process")
+def generated_dex(U):
+    m = U.mod(DEX)
+    seed = U.int("seed", 0, 1 << 30)
+    rng = random.Random(seed)
+    for rnd in range(2):            # the second file reuses offsets / indices of the first: per-file state must not leak
+        classes = _rand_dex_model(rng)
+        data = DWR.write(classes)
+        o = U.call(lambda: m.DEX(data))
+        U.ensures("parses", o.ok, exc=repr(o.exc)[:300], file=rnd)
+        if not o.ok:
+            return
+        d = o.value
+        got = _model(d)
+        for g in got:
+            for key in ("sfields", "ifields"):
+                g[key] = sorted(g[key])
+            for key in ("dmethods", "vmethods"):
+                g[key] = sorted(g[key], key=repr)
+        want = _expected(classes)
+        U.ensures("exactly the declared classes, in file order", [g["name"] for g in got] == [w["name"] for w in want], got=[g["name"] for g in got])
+        for g, w in zip(got, want):
+            for key in ("access", "super", "interfaces", "sfields", "ifields", "dmethods", "vmethods"):
+                U.ensures("class %s as declared" % key, g[key] == w[key], cls=g["name"], got=str(g[key])[:300], want=str(w[key])[:300], file=rnd)
+            if w["source"] is not None:
+                U.ensures("source file name", g["source"] == w["source"], cls=g["name"], got=g["source"])
+        for w in want:
+            c = d.get_class(w["name"])
+            U.ensures("get_class finds every declared class", c is not None and c.get_name() == w["name"], cls=w["name"])
+            for f in w["sfields"] + w["ifields"]:
+                ef = d.get_encoded_field_descriptor(f[0], f[1], f[2])
+                U.ensures("field lookup by (class, name, type) returns the declared field",
+                          ef is not None and (ef.get_class_name(), ef.get_name(), ef.get_descriptor(), ef.get_access_flags()) == f, field=f[:3])
+            for me in w["dmethods"] + w["vmethods"]:
+                em = d.get_encoded_method_descriptor(me[0], me[1], me[2])
+                U.ensures("method lookup by (class, name, descriptor) returns the declared method",
+                          em is not None and (em.get_class_name(), em.get_name(), em.get_descriptor(), em.get_access_flags()) == me[:4], method=me[:3])
+            got_m = sorted((x.get_name(), x.get_descriptor()) for x in d.get_encoded_methods_class(w["name"]))
+            U.ensures("methods of a class by class name", got_m == sorted((me[1], me[2]) for me in w["dmethods"] + w["vmethods"]), cls=w["name"])
+            got_f = sorted((x.get_name(), x.get_descriptor()) for x in d.get_encoded_fields_class(w["name"]))
+            U.ensures("fields of a class by class name", got_f == sorted((f[1], f[2]) for f in w["sfields"] + w["ifields"]), cls=w["name"])
+        U.ensures("lookups of undeclared items return None", d.get_class("Lno/Such;") is None and
+                  d.get_encoded_method_descriptor("Lno/Such;", "x", "()V") is None and d.get_encoded_field_descriptor("Lno/Such;", "x", "I") is None)
